@@ -33,7 +33,9 @@ NOTE = (
     "evaluated by substitution; asin/sin, tan/arctan as principal-branch inverses"
 )
 TECHNIQUE = "bounded model checking by symbolic execution: every operation sequence up to the bound is run on the real VarsManager with symbolic values (path forking on data-dependent branches), invariants decided by z3 per state"
-EXPLANATION = CLAIM
+CLAIM_EXTRA = 'Tie groups: for every sequence of up to 3 (thorough: 4, sampled) set_same calls on pairs out of five names - including calls that merge existing groups - all connected names read the same value, an assignment through any tied name is read through every member and through nobody else, and each group counts once among the free parameters. Two polar parameters sharing their magnitude in a tie group registered before another group keep their complex values under standard_complex for either sign of the shared magnitude.'
+NOTE_EXTRA = 'further layouts: five real names for the tie histories, three polar parameters with a shared magnitude; std_polar_all / rp2xy_all with shared magnitudes and set_fix on bounded parameters are outside the encoding'
+EXPLANATION = CLAIM + " " + CLAIM_EXTRA
 FUNCTIONS = [
     "tf_pwa/variable.py:VarsManager.add_real_var", "tf_pwa/variable.py:VarsManager.set_same (merging of tie groups)", "tf_pwa/variable.py:VarsManager.add_complex_var", "tf_pwa/variable.py:VarsManager.set_fix", "tf_pwa/variable.py:VarsManager.set_same",
     "tf_pwa/variable.py:VarsManager.set_bound", "tf_pwa/variable.py:VarsManager.get", "tf_pwa/variable.py:VarsManager.set", "tf_pwa/variable.py:VarsManager.read",
